@@ -441,6 +441,27 @@ def stage_a(chk: core.Check, n_cfg: int):
     chk.stages["A_correspondence"] = {"configurations": len(configs), "corpus": len(corpus), "comparisons": total, "families": {k: len(v) for k, v in fam.items()}}
 
 
+def regression_prefix(chk):
+    """The regression model get_strategy_kwargs_prefix (code before 9a3b607c) must DIFFER from today's function on the F1 input
+    and agree with the current model elsewhere (evaluated, not assumed)."""
+    from schemathesis.engine.config import EngineConfig, NetworkConfig
+    from schemathesis.engine.phases.unit import get_strategy_kwargs
+
+    decl = {"query": ["q"], "headers": ["X-Over"], "cookies": [], "path_parameters": ["id"]}
+    schema, op = build_schema(decl)
+    cfg = {"headers": {"X-Canary": "CAN"}, "auth": None, "auth_value": None, "unique_inputs": False, "sanitize": True,
+           "override": {"query": {"q": "QV"}, "headers": {"X-Over": "OV"}, "cookies": {}, "path_parameters": {}}}
+    ctx = SimpleNamespace(config=EngineConfig(network=NetworkConfig(headers=dict(cfg["headers"])), override=make_override(cfg["override"])))
+    real = real_odict(get_strategy_kwargs(ctx, op).get("headers"))
+    C, O = ccfg(cfg), coper(real_decl(op))
+    old, new = core.coq_eval(IMPORTS, [f"get_strategy_kwargs_prefix {C} {O} LHeaders", f"strategy_kwarg {C} {O} LHeaders"])
+    if _norm(podict(new)) != _norm(real):
+        chk.disagree("get_strategy_kwargs vs model on the F1 configuration", cfg, real, podict(new))
+    if _norm(podict(old)) == _norm(real):
+        chk.disagree("get_strategy_kwargs behaves like the regression model get_strategy_kwargs_prefix (finding C14-F1 is back)", cfg, real, podict(old))
+    chk.stages["A_regression_model"] = {"get_strategy_kwargs": real, "prefix_model": podict(old)}
+
+
 def _norm(x):
     return json.loads(json.dumps(x, default=str))
 
@@ -883,8 +904,8 @@ def region_of(cfg, phase, what, name):
     """Python mirror of the model's region predicates"""
     from schemathesis.core.output.sanitization import sanitize_value
 
-    if what == "override-header" and phase != "stateful" and cfg.get("headers"):
-        return "override_header_dropped_when_headers_configured"
+    if what == "override-header" and name.lower() in {k.lower() for k in (cfg.get("headers") or {})}:
+        return "header_and_override_same_name"
     if what in ("override-query", "override-cookie") and phase != "stateful" and cfg.get("unique_inputs") and cfg.get("sanitize", True):
         d = {name: "v"}
         sanitize_value(d)
@@ -944,6 +965,8 @@ def live_once(chk, cfg, phase, *, workers=1, secured=False, max_examples=4, stat
                 continue
             if len({v for k, v in cfg["headers"].items() if k.lower() == name.lower()}) > 1:
                 continue  # the user configured two spellings with different values: no single user value (ci_user = None)
+            if is_item and ov is not None and any(k.lower() == name.lower() and k in declared_names for k in cfg["override"]["headers"]):
+                continue  # the more specific --set-header names it too: the override is the value demanded below
             if low.get(name.lower()) != val:
                 chk.fail(f"configured header {name!r} not sent with the user's value in phase {phase}: got {low.get(name.lower())!r}", {"cfg": canon_cfg, "request": r["method"] + " " + r["target"]},
                          region=region_of(cfg, phase, "net-header", name))
@@ -959,7 +982,7 @@ def live_once(chk, cfg, phase, *, workers=1, secured=False, max_examples=4, stat
                     chk.fail(f"query override {name}={val!r} not on the request in phase {phase}: {r['target']!r}", {"cfg": canon_cfg, "request": r["method"] + " " + r["target"]},
                              region=region_of(cfg, phase, "override-query", name))
             for name, val in cfg["override"]["headers"].items():
-                if name in declared_names and name.lower() not in {k.lower() for k in (cfg.get("headers") or {})} and low.get(name.lower()) != val:
+                if name in declared_names and low.get(name.lower()) != val:
                     chk.fail(f"header override {name}={val!r} not on the request in phase {phase}: got {low.get(name.lower())!r}", {"cfg": canon_cfg, "request": r["method"] + " " + r["target"]},
                              region=region_of(cfg, phase, "override-header", name))
             cookies = dict(p.strip().split("=", 1) for p in low.get("cookie", "").split(";") if "=" in p)
@@ -989,8 +1012,10 @@ ORACLE_CFGS = [
     # overrides only: all four locations, names the operation declares (required and optional)
     {"override": {"query": {"q": "QV", "r": "RV"}, "headers": {"X-Over": "OV", "X-Gen": "b"}, "cookies": {"c": "CV"}, "path_parameters": {"iid": "42"}}},
     {"override": {"query": {"q": "QV", "zzz": "no"}, "headers": {}, "cookies": {"session": "SV"}, "path_parameters": {}}, "auth": ("u", "p"), "unique_inputs": True, "sanitize": False},
-    # F1 region: header override together with --header
+    # header override together with --header (was finding F1, fixed by 9a3b607c): must arrive in all four phases
     {"headers": {"X-Canary": "CAN"}, "override": {"query": {"q": "QV"}, "headers": {"X-Over": "OV"}, "cookies": {}, "path_parameters": {"iid": "9"}}},
+    # F4 region: the same header named by --header and --set-header (same and different spelling)
+    {"headers": {"X-Over": "NET", "x-gen": "NETG"}, "override": {"query": {}, "headers": {"X-Over": "OV", "X-Gen": "b"}, "cookies": {}, "path_parameters": {}}},
     # F2 region: sensitive names with unique_inputs
     {"override": {"query": {"api_key": "SECRET", "q": "QV"}, "headers": {}, "cookies": {"session": "SV"}, "path_parameters": {}}, "unique_inputs": True},
     # F3 region
@@ -1134,6 +1159,7 @@ def run(chk: core.Check):
     )
     chk.proofs(["Common", "C14"])
     stage_a(chk, 40 if quick else 400)
+    regression_prefix(chk)
     stage_b(chk, (60 if quick else 600) * (3 if chk.broken else 1))
     stage_c(chk, (17 if quick else 10**6) * (3 if chk.broken else 1))
     for f in chk.findings:
